@@ -49,6 +49,8 @@ type recorder struct {
 	processors.DefaultInstantiationAwareComponentPostProcessor
 	mu   sync.Mutex
 	seen map[string][]string // component name -> "field|TagVal|args"
+	// stampTag: the tag name under which the scanner's handler reports the fields it claims by type ("" = "mytag")
+	stampTag string
 }
 
 func (m *recorder) Naming() string                                          { return "verif.recorder" }
@@ -66,7 +68,11 @@ func (m *recorder) PostProcessProperties(props []*component_definition.Property,
 			m.seen["plug:"+name] = append(m.seen["plug:"+name], fmt.Sprintf("%s|%s|%s", p.StructField.Name, p.TagVal, p.Args().String()))
 			continue
 		}
-		if p.Tag != "mytag" {
+		want := "mytag"
+		if p.StructField.Type == stampType && m.stampTag != "" {
+			want = m.stampTag // (a field claimed by the handler arrives under the tag name the handler gave it)
+		}
+		if p.Tag != want {
 			continue
 		}
 		m.seen[name] = append(m.seen[name], fmt.Sprintf("%s|%s|%s", p.StructField.Name, p.TagVal, p.Args().String()))
@@ -352,6 +358,9 @@ func (p c11) Run(c *core.Ctx) {
 		g.Sc.Config = c11Config
 		g.ShuffleOrders()
 		rec := &recorder{seen: map[string][]string{}}
+		if s%3 == 1 {
+			rec.stampTag = "stamped" // the handler names its finds differently from the processor's own tag
+		}
 		// the user's tag processor declares a property type of its own, or shares the built-in configuration
 		// type: either way it is handed its tag's value and arguments, nothing added
 		nt := component_definition.PropertyType("custom")
@@ -361,6 +370,9 @@ func (p c11) Run(c *core.Ctx) {
 		scan := &mytagScanner{processors.DefaultTagScanDefinitionRegistryPostProcessor{NodeType: nt, Tag: "mytag",
 			ExtractHandler: func(_ *component_definition.Meta, f *component_definition.Field) (string, string, bool) {
 				if f.StructField.Type == stampType {
+					if rec.stampTag != "" {
+						return rec.stampTag, stampTagVal, true
+					}
 					return "mytag", stampTagVal, true
 				}
 				return "", "", false
